@@ -163,6 +163,9 @@ def explore(report, property_id, name, cfg, fmts=("delimited",), require=READ_AC
 
 
 def replay(behaviour, report=None):
+    if behaviour.get("kind") == "trace":
+        from harness import trace_drivers
+        return trace_drivers.replay_trace(behaviour)
     if behaviour.get("fmt") == "cli":
         findings = replay_cli(behaviour["vec"])
     else:
